@@ -14,12 +14,13 @@ import (
 // evaluated (sizes come from the gate analysis, language classes from the constant table).
 type Ctx struct {
 	Name      string
-	EntLen    *int64    // length of every []byte parameter of the entry point
-	WordCount *int64    // value of the int parameter of the entry point
-	TokCount  *int64    // number of tokens produced by the tokeniser
-	SizeKind  string    // "L", "W" or "N": which size SizeRange bounds
-	SizeRange *[2]int64 // when the size is not a single value: an interval containing it (a class of rejected sizes)
-	Lang      *IntV     // value of every Language-typed parameter of the entry point
+	Modular   map[*ssa.Function]bool // module functions whose calls are not entered (proved separately for all arguments)
+	EntLen    *int64                 // length of every []byte parameter of the entry point
+	WordCount *int64                 // value of the int parameter of the entry point
+	TokCount  *int64                 // number of tokens produced by the tokeniser
+	SizeKind  string                 // "L", "W" or "N": which size SizeRange bounds
+	SizeRange *[2]int64              // when the size is not a single value: an interval containing it (a class of rejected sizes)
+	Lang      *IntV                  // value of every Language-typed parameter of the entry point
 	// Infeasible blocks (from the gate analysis) for contexts that stand for a set of values
 	Infeasible map[*ssa.BasicBlock]bool
 }
@@ -106,6 +107,9 @@ type frame struct {
 	isEntry bool
 	ev      *Eval
 	defers  []deferRec
+	over    map[ssa.Value]AV // block-scoped refinements of integer values (dominating comparisons)
+	cur     *ssa.BasicBlock
+	topPhis map[ssa.Value]AV
 }
 
 type deferRec struct {
@@ -351,12 +355,18 @@ func (e *Eval) evalFunc(fn *ssa.Function, args []AV, bindings []AV, st State, de
 			}
 		}
 		if body, isHeader := loops[b]; isHeader {
-			if nested[b] {
+			if nested[b] || len(e.activeLoops) > 0 {
+				// (a loop in a function called from inside a loop is nested too: the iteration
+				// number the symbolic values refer to would be ambiguous)
 				e.event("P5", Undecided, b.Instrs[0], "nested loops in %s are outside the summarised shapes", fn.Name())
-				// everything becomes unknown: mark all objects ⊤ and process blocks plainly without back edges
+				// everything becomes unknown: all objects and all loop-carried values are ⊤; the
+				// blocks are then processed plainly, without back edges
 				for o := range in {
 					in[o] = topContent(o, "nested loop")
 				}
+				done[b] = true
+				e.evalBlockTopPhis(fr, b, in)
+				continue
 			} else {
 				e.evalLoop(fr, b, body, in, done)
 				continue
@@ -512,11 +522,15 @@ func joinAV(a, b AV) AV {
 	if b == nil {
 		return a
 	}
+	ia, oka := a.(IntV)
+	ib, okb := b.(IntV)
+	if oka && okb && ia.Tab != ib.Tab {
+		ia.Tab, ib.Tab = nil, nil
+		a, b = ia, ib
+	}
 	if a.String() == b.String() {
 		return a
 	}
-	ia, oka := a.(IntV)
-	ib, okb := b.(IntV)
 	if oka && okb {
 		l1, h1, ok1 := ia.Bounds(0)
 		l2, h2, ok2 := ib.Bounds(0)
@@ -555,6 +569,19 @@ func (e *Eval) evalBlock(fr *frame, b *ssa.BasicBlock, st State) {
 	e.evalBlockIn(fr, b, st)
 }
 
+// evalBlockTopPhis evaluates the header of a loop that is not summarised: its φs are unknown.
+func (e *Eval) evalBlockTopPhis(fr *frame, b *ssa.BasicBlock, st State) {
+	top := map[ssa.Value]AV{}
+	for _, in := range b.Instrs {
+		if phi, ok := in.(*ssa.Phi); ok {
+			top[phi] = e.topOf(phi.Type(), "value carried round a loop that is not summarised")
+		}
+	}
+	fr.topPhis = top
+	e.evalBlock(fr, b, st)
+	fr.topPhis = nil
+}
+
 func (e *Eval) loopActive(lp *loopCtx) bool {
 	for _, l := range e.activeLoops {
 		if l == lp {
@@ -565,11 +592,20 @@ func (e *Eval) loopActive(lp *loopCtx) bool {
 }
 
 func (e *Eval) evalBlockIn(fr *frame, b *ssa.BasicBlock, st State) {
+	savedOver, savedCur := fr.over, fr.cur
+	fr.over = nil
+	fr.over = e.refinements(fr, b)
+	fr.cur = b
+	defer func() { fr.over, fr.cur = savedOver, savedCur }()
 	for _, in := range b.Instrs {
 		e.Instrs++
 		switch x := in.(type) {
 		case *ssa.Phi:
-			fr.env[x] = e.evalPhi(fr, x)
+			if v, ok := fr.topPhis[x]; ok {
+				fr.env[x] = v
+			} else {
+				fr.env[x] = e.evalPhi(fr, x)
+			}
 		case *ssa.If:
 			c := e.val(fr, x.Cond)
 			bv, _ := c.(BoolV)
@@ -689,9 +725,22 @@ func (e *Eval) setEdge(fr *frame, from, to *ssa.BasicBlock, st State) {
 	}
 }
 
-// controlling returns the branch edges that dominate b (nearest first).
-func (e *Eval) controlling(fr *frame, b *ssa.BasicBlock) []EdgeCond {
-	var out []EdgeCond
+// ctrlEdge is a branch edge that dominates a block: the block is reached only with the
+// condition of If having the value Taken.
+type ctrlEdge struct {
+	If       *ssa.If
+	Taken    bool
+	LoopTest bool
+}
+
+// ctrlEdges returns the branch edges that dominate b (nearest first); purely structural, cached.
+func (e *Eval) ctrlEdges(b *ssa.BasicBlock) []ctrlEdge {
+	if e.P != nil {
+		if c, ok := e.P.ctrl[b]; ok {
+			return c
+		}
+	}
+	var out []ctrlEdge
 	for x := b; x != nil; x = x.Idom() {
 		d := x.Idom()
 		if d == nil {
@@ -712,9 +761,231 @@ func (e *Eval) controlling(fr *frame, b *ssa.BasicBlock) []EdgeCond {
 				isLoop = true
 			}
 		}
-		out = append(out, EdgeCond{If: ifi, Taken: viaT, Val: e.val(fr, ifi.Cond), LoopTest: isLoop})
+		out = append(out, ctrlEdge{If: ifi, Taken: viaT, LoopTest: isLoop})
+	}
+	if e.P != nil {
+		if e.P.ctrl == nil {
+			e.P.ctrl = map[*ssa.BasicBlock][]ctrlEdge{}
+		}
+		e.P.ctrl[b] = out
 	}
 	return out
+}
+
+// controlling returns the branch edges that dominate b (nearest first) with the abstract
+// value of each condition.
+func (e *Eval) controlling(fr *frame, b *ssa.BasicBlock) []EdgeCond {
+	var out []EdgeCond
+	for _, c := range e.ctrlEdges(b) {
+		out = append(out, EdgeCond{If: c.If, Taken: c.Taken, Val: e.val(fr, c.If.Cond), LoopTest: c.LoopTest})
+	}
+	return out
+}
+
+// relation is `X op Y` known to hold (integer operands).
+type relation struct {
+	X, Y ssa.Value
+	Op   token.Token
+}
+
+// relationsAt lists the integer comparisons that hold on entry to b because of the branch
+// edges dominating it (farthest first).  SSA values are immutable, so a comparison of two
+// SSA values that held on a dominating edge still holds in b.
+func (e *Eval) relationsAt(b *ssa.BasicBlock) []relation {
+	var out []relation
+	edges := e.ctrlEdges(b)
+	for i := len(edges) - 1; i >= 0; i-- {
+		c := edges[i]
+		cv := c.If.Cond
+		hold := c.Taken
+		for {
+			u, ok := cv.(*ssa.UnOp)
+			if !ok || u.Op != token.NOT {
+				break
+			}
+			hold = !hold
+			cv = u.X
+		}
+		bo, ok := cv.(*ssa.BinOp)
+		if !ok {
+			continue
+		}
+		switch bo.Op {
+		case token.LSS, token.LEQ, token.GTR, token.GEQ, token.EQL, token.NEQ:
+		default:
+			continue
+		}
+		if bt, ok := bo.X.Type().Underlying().(*types.Basic); !ok || bt.Info()&types.IsInteger == 0 {
+			continue
+		}
+		op := bo.Op
+		if !hold {
+			op = negOp(op)
+		}
+		out = append(out, relation{bo.X, bo.Y, op})
+	}
+	return out
+}
+
+// refinements computes, for block b, sharper ranges for integer SSA values that the
+// dominating comparisons constrain (only values currently known as ⊤ or as a range are
+// touched; exact, symbolic and per-iteration values keep their representation).
+func (e *Eval) refinements(fr *frame, b *ssa.BasicBlock) map[ssa.Value]AV {
+	rels := e.relationsAt(b)
+	if len(rels) == 0 {
+		return nil
+	}
+	var over map[ssa.Value]AV
+	cur := func(v ssa.Value) AV {
+		if a, ok := over[v]; ok {
+			return a
+		}
+		return e.val(fr, v)
+	}
+	bounds := func(v ssa.Value) (lo, hi int64, refinable, ok bool) {
+		a, isInt := cur(v).(IntV)
+		tlo, thi, _, _, tok := e.typeRange(v.Type())
+		if !isInt {
+			if _, isTop := cur(v).(TopV); isTop && tok {
+				return tlo, thi, true, true
+			}
+			return 0, 0, false, false
+		}
+		switch a.Kind {
+		case ikTop:
+			if tok {
+				return tlo, thi, true, true
+			}
+		case ikRange:
+			return a.Lo, a.Hi, true, true
+		case ikLin:
+			if a.L.Const() {
+				return a.L.A, a.L.A, false, true
+			}
+		}
+		return 0, 0, false, false
+	}
+	apply := func(x ssa.Value, op token.Token, y ssa.Value) {
+		if _, isConst := x.(*ssa.Const); isConst {
+			return
+		}
+		xlo, xhi, refinable, ok := bounds(x)
+		if !ok || !refinable {
+			return
+		}
+		ylo, yhi, _, ok := bounds(y)
+		if !ok {
+			return
+		}
+		nlo, nhi := xlo, xhi
+		switch op {
+		case token.LSS:
+			if yhi == math.MinInt64 {
+				return
+			}
+			if yhi-1 < nhi {
+				nhi = yhi - 1
+			}
+		case token.LEQ:
+			if yhi < nhi {
+				nhi = yhi
+			}
+		case token.GTR:
+			if ylo == math.MaxInt64 {
+				return
+			}
+			if ylo+1 > nlo {
+				nlo = ylo + 1
+			}
+		case token.GEQ:
+			if ylo > nlo {
+				nlo = ylo
+			}
+		case token.EQL:
+			if ylo > nlo {
+				nlo = ylo
+			}
+			if yhi < nhi {
+				nhi = yhi
+			}
+		case token.NEQ:
+			if ylo == yhi {
+				if nlo == ylo && nlo < nhi {
+					nlo++
+				} else if nhi == ylo && nlo < nhi {
+					nhi--
+				}
+			}
+		}
+		if nlo > nhi || (nlo == xlo && nhi == xhi) {
+			return // infeasible here (keep the unrefined value: still an over-approximation) or nothing learnt
+		}
+		if over == nil {
+			over = map[ssa.Value]AV{}
+		}
+		if nlo == nhi {
+			over[x] = CInt(nlo)
+		} else {
+			over[x] = RangeInt(nlo, nhi)
+		}
+	}
+	for _, r := range rels {
+		apply(r.X, r.Op, r.Y)
+		apply(r.Y, flipOp(r.Op), r.X)
+	}
+	return over
+}
+
+// relBound: the dominating comparisons establish 0 <= idx < len(base) for these SSA values.
+func (e *Eval) relBound(fr *frame, b *ssa.BasicBlock, idx, base ssa.Value, idxAV IntV, strict bool) bool {
+	if idx == nil || base == nil || b == nil {
+		return false
+	}
+	isLenOfBase := func(v ssa.Value) bool {
+		c, ok := v.(*ssa.Call)
+		if !ok {
+			return false
+		}
+		bi, ok := c.Call.Value.(*ssa.Builtin)
+		return ok && bi.Name() == "len" && len(c.Call.Args) == 1 && c.Call.Args[0] == base
+	}
+	below, nonNeg := false, false
+	if bt, ok := idx.Type().Underlying().(*types.Basic); ok && bt.Info()&types.IsUnsigned != 0 {
+		nonNeg = true
+	}
+	switch idxAV.Kind {
+	case ikLin:
+		if idxAV.L.A >= 0 && idxAV.L.B >= 0 {
+			nonNeg = true
+		}
+	case ikRange:
+		if idxAV.Lo >= 0 {
+			nonNeg = true
+		}
+	case ikBits:
+		nonNeg = true
+	}
+	for _, r := range e.relationsAt(b) {
+		x, op, y := r.X, r.Op, r.Y
+		if y == idx || isLenOfBase(x) {
+			x, y, op = y, x, flipOp(op)
+		}
+		if x != idx {
+			continue
+		}
+		if isLenOfBase(y) {
+			if op == token.LSS || (!strict && op == token.LEQ) {
+				below = true
+			}
+			continue
+		}
+		if c, ok := intConst(y); ok {
+			if (op == token.GEQ && c >= 0) || (op == token.GTR && c >= -1) {
+				nonNeg = true
+			}
+		}
+	}
+	return below && nonNeg
 }
 
 // reachesOnlyVia: x is dominated by d; report whether succ s of d leads to x
@@ -783,6 +1054,11 @@ func (e *Eval) val(fr *frame, v ssa.Value) AV {
 		return FuncV{Fn: c}
 	case *ssa.Builtin:
 		return TopV{"builtin " + c.Name()}
+	}
+	if fr.over != nil {
+		if a, ok := fr.over[v]; ok {
+			return a
+		}
 	}
 	if a, ok := fr.env[v]; ok && a != nil {
 		return a
@@ -1758,6 +2034,24 @@ func (e *Eval) loadElem(fr *frame, x ssa.Instruction, el *ElemRef, st State) AV 
 		for _, v := range b.Elems {
 			cur = joinAV(cur, v)
 		}
+		if r, ok := cur.(IntV); ok && r.Kind == ikRange && el.Idx.Kind == ikLin {
+			// an index affine in the iteration number into a table of constants
+			vals := make([]int64, len(b.Elems))
+			all := true
+			for i, v := range b.Elems {
+				iv, ok := v.(IntV)
+				c, okc := iv.Const()
+				if !ok || !okc {
+					all = false
+					break
+				}
+				vals[i] = c
+			}
+			if all {
+				r.Tab = &TabRef{Vals: vals, Idx: el.Idx.L}
+				return r
+			}
+		}
 		if cur != nil {
 			return cur
 		}
@@ -1841,6 +2135,22 @@ func (e *Eval) lenOf(fr *frame, a AV, st State) IntV {
 func (e *Eval) boundsCheck(fr *frame, in ssa.Instruction, idx IntV, n IntV, what string) {
 	lo, hi, ok := idx.Bounds(fr.T())
 	nlo, _, nok := n.Bounds(fr.T())
+	if !(ok && nok && lo >= 0 && hi < nlo) {
+		// relational: the dominating comparisons say 0 <= index < len(this very slice)
+		var iv, bv ssa.Value
+		switch x := in.(type) {
+		case *ssa.IndexAddr:
+			iv, bv = x.Index, x.X
+		case *ssa.Index:
+			iv, bv = x.Index, x.X
+		case *ssa.Lookup:
+			iv, bv = x.Index, x.X
+		}
+		if iv != nil && e.relBound(fr, in.Block(), iv, bv, idx, true) {
+			e.event("P2", Discharged, in, "%s: the index is compared with len of the same value on every path here and is not negative", what)
+			return
+		}
+	}
 	switch {
 	case !ok || !nok:
 		e.event("P2", Undecided, in, "%s: index %v against length %v cannot be bounded", what, idx, n)
@@ -1951,6 +2261,11 @@ func (e *Eval) slice(fr *frame, x *ssa.Slice, st State) AV {
 		}
 	}
 	n := e.lenOf(fr, base, st)
+	if pt, ok := x.X.Type().Underlying().(*types.Pointer); ok {
+		if at, ok := pt.Elem().Underlying().(*types.Array); ok {
+			n = CInt(at.Len())
+		}
+	}
 	lo := get(x.Low, CInt(0))
 	hi := get(x.High, n)
 	// 0 <= lo <= hi <= cap (we use len; slicing up to cap of a longer backing array is not modelled)
@@ -1958,9 +2273,25 @@ func (e *Eval) slice(fr *frame, x *ssa.Slice, st State) AV {
 	l2, h2, ok2 := hi.Bounds(fr.T())
 	nl, _, okn := n.Bounds(fr.T())
 	full := x.Low == nil && x.High == nil
+	perT := false
+	if T := fr.T(); !full && T > 0 && T <= 4096 && !(ok1 && ok2 && okn && l1 >= 0 && h1 <= l2 && h2 <= nl) {
+		// bounds that are functions of the iteration number alone: check every iteration
+		perT = true
+		for t := int64(0); t < T; t++ {
+			a, oka := lo.At(t)
+			b, okb := hi.At(t)
+			c, okc := n.At(t)
+			if !oka || !okb || !okc || a < 0 || a > b || b > c {
+				perT = false
+				break
+			}
+		}
+	}
 	switch {
 	case full:
 		e.event("P2", Discharged, x, "full slice")
+	case perT:
+		e.event("P2", Discharged, x, "slice bounds [%v:%v] within %v in each of the %d iterations", lo, hi, n, fr.T())
 	case !ok1 || !ok2 || !okn:
 		e.event("P2", Undecided, x, "slice bounds [%v:%v] of %v (len %v) cannot be bounded", lo, hi, shortAV(base), n)
 	case l1 < 0 || h1 > l2 || h2 > nl:
@@ -2318,6 +2649,11 @@ func (e *Eval) condInLoop(fr *frame, b *ssa.BasicBlock) bool {
 
 func (e *Eval) loadGlobal(fr *frame, g *ssa.Global, t types.Type) AV {
 	if g.Pkg == nil || !e.P.InModule(g.Pkg) {
+		if isErrorType(t) {
+			// an exported error variable of another package (io.EOF, io.ErrUnexpectedEOF): some
+			// non-nil error that is none of this module's sentinels
+			return ErrV{Kind: ekUnknown, NonNil: true, From: g.Pkg.Pkg.Path() + "." + g.Name()}
+		}
 		return ExtGlobalV{Name: g.Pkg.Pkg.Path() + "." + g.Name()}
 	}
 	if e.G == nil {
